@@ -289,6 +289,14 @@ func (env *specEnv) lookupIdent(name string) (sval, bool) {
 			}
 		}
 	}
+	// addressable local (its cell): the name denotes the cell's content
+	if env.fr != nil {
+		if a, ok := env.fr.srcAddrs[name]; ok && a != nil {
+			if t, ok := env.fr.vals[a]; ok {
+				return env.deref(sval{t: t, typ: a.Type()}), true
+			}
+		}
+	}
 	// contract applied at a call site: a source-level local of the callee denotes some (unknown) value
 	if env.fr == nil && env.atFresh != nil && env.fn != nil {
 		if v, ok := env.atFresh["local:"+name]; ok {
@@ -902,6 +910,17 @@ func (env *specEnv) evalCall(c *ECall) sval {
 				return sval{t: fmt.Sprintf("(atoi_ok %s)", env.rv(x)), typ: tBool}
 			}
 			return sval{t: fmt.Sprintf("(atoi_val %s)", env.rv(x)), typ: tInt}
+		case "pdur_ok", "pdur_val":
+			declPdur(vc)
+			x := env.eval(c.Args[0])
+			if id.Name == "pdur_ok" {
+				return sval{t: fmt.Sprintf("(pdur_ok %s)", env.rv(x)), typ: tBool}
+			}
+			return sval{t: fmt.Sprintf("(pdur_val %s)", env.rv(x)), typ: tInt}
+		case "gvstr":
+			declGvstr(vc)
+			a, b := env.eval(c.Args[0]), env.eval(c.Args[1])
+			return sval{t: fmt.Sprintf("(gvstr %s %s)", env.coerce(a, tString), env.coerce(b, tString)), typ: tString}
 		case "itoa":
 			declAtoi(vc)
 			x := env.eval(c.Args[0])
